@@ -30,3 +30,199 @@ Print Assumptions inline_script_is_a_script.
 Theorem label_entry_emits_no_code : forall tl opt n r, emit_scripts None tl opt ((n, None) :: r) = emit_scripts None tl opt r.
 Proof. exact label_entries_emit_nothing. Qed.
 Print Assumptions label_entry_emits_no_code.
+
+(* ---------- the parser side (MapScriptsParse.v) ---------- *)
+(* Source grammar: statement ::= MAPSCRIPTS [scope] NAME '{' entry* '}'; entry ::= TYPE ':' LABEL | TYPE '{' body '}' |
+   TYPE '[' row* ']'; row ::= cond ',' value ':' LABEL | cond ',' value '{' body '}'. The parser accepts exactly the
+   statements of this grammar and returns the AST of the tree: plain entries in source order, tables in source order, the rows of
+   a table in source order, inline scripts named <map>_<TYPE> and <map>_<TYPE>_<row index>; combined with mapscripts_shape:
+   from tokens to the printed lines. *)
+From Pory Require Import Parser Format Consume MapScriptsParse.
+Theorem parse_mapscripts_sound :
+  forall (autovars : list (text * autovar)) (switches : list (text * text)) (env_errors : bool)
+    (parse_format : toks -> res (token * text * text * toks)),
+  (forall (ts : toks) (tk : token) (v sty : text) (ts' : toks),
+   parse_format ts = Ok (tk, v, sty, ts') -> forall a : toks, advs a ts -> advs a ts') ->
+  forall (consts : list (text * text)) (f : nat) (ts : toks) (tp : top) (imp : impdata) (ts' : toks),
+  eof_ended ts ->
+  parse_mapscripts autovars switches env_errors parse_format consts f ts = Ok (tp, imp, ts') ->
+  exists (g : bool) (name : text) (es : list entry) (rb : token) (rest : toks),
+    mapscripts_src consts (body_parsed autovars switches env_errors parse_format consts) ts g name es rb rest /\
+    ts' = rb :: rest /\ eof_ended rest /\ tp = TMapScripts name g (plain_of name es) (tables_of consts name es) /\ imp_eq imp (entries_imp es).
+Proof. exact MapScriptsParse.parse_mapscripts_sound. Qed.
+Print Assumptions parse_mapscripts_sound.
+
+Theorem parse_mapscripts_sound_real :
+  forall (autovars : list (text * autovar)) (switches : list (text * text)) (ee : bool) (fc : fontcfg) (cli_font : text) 
+    (cli_maxlen : Z) (consts : list (text * text)) (f : nat) (ts : toks) (tp : top) (imp : impdata) (ts' : toks),
+  eof_ended ts ->
+  parse_mapscripts autovars switches ee (parse_format fc cli_font cli_maxlen ee) consts f ts = Ok (tp, imp, ts') ->
+  exists (g : bool) (name : text) (es : list entry) (rb : token) (rest : toks),
+    mapscripts_src consts (body_parsed autovars switches ee (parse_format fc cli_font cli_maxlen ee) consts) ts g name es rb rest /\
+    ts' = rb :: rest /\ eof_ended rest /\ tp = TMapScripts name g (plain_of name es) (tables_of consts name es) /\ imp_eq imp (entries_imp es).
+Proof. exact MapScriptsParse.parse_mapscripts_sound_real. Qed.
+Print Assumptions parse_mapscripts_sound_real.
+
+Theorem parse_mapscripts_complete :
+  forall (autovars : list (text * autovar)) (switches : list (text * text)) (env_errors : bool)
+    (parse_format : toks -> res (token * text * text * toks)) (consts : list (text * text)) (F0 : nat) (ts : toks) (g : bool) 
+    (name : text) (es : list entry) (rb : token) (rest : toks) (f : nat),
+  mapscripts_src consts (body_parses autovars switches env_errors parse_format consts F0) ts g name es rb rest ->
+  F0 + Datatypes.length ts <= f ->
+  exists imp : impdata,
+    parse_mapscripts autovars switches env_errors parse_format consts f ts =
+    Ok (TMapScripts name g (plain_of name es) (tables_of consts name es), imp, rb :: rest) /\ imp_eq imp (entries_imp es).
+Proof. exact MapScriptsParse.parse_mapscripts_complete. Qed.
+Print Assumptions parse_mapscripts_complete.
+
+Theorem inline_body_is_script_body :
+  forall (autovars : list (text * autovar)) (switches : list (text * text)) (env_errors : bool)
+    (parse_format : toks -> res (token * text * text * toks)) (consts : list (text * text)) (sname : text) (lb : token) 
+    (ts : toks) (b : list stmt) (imp : impdata) (ts' : toks),
+  body_parsed autovars switches env_errors parse_format consts sname lb ts b imp ts' ->
+  ttype lb = LBRACE ->
+  ts <> [] ->
+  forall stok ntok : token,
+  ttype ntok = IDENT ->
+  tlit ntok = sname ->
+  exists fb : nat, parse_script autovars switches env_errors parse_format consts fb (stok :: ntok :: lb :: ts) = Ok (sname, true, b, imp, ts').
+Proof. exact MapScriptsParse.inline_body_is_script_body. Qed.
+Print Assumptions inline_body_is_script_body.
+
+Theorem tree_lines :
+  forall (consts : list (text * text)) (tl : list text) (opt : bool) (name : text) (g : bool) (es : list entry),
+  emit_mapscripts None tl opt name g (plain_of name es) (tables_of consts name es) =
+  bind_i (emit_scripts None tl opt (plain_scripts name es))
+    (fun inl : list instr =>
+     bind_i (table_blocks consts tl opt name es)
+       (fun tt : list instr =>
+        Emitter.Ok ([ILabel name g] ++ plain_lines name es ++ table_lines name es ++ [ILine (tab ++ t ".byte 0"); IBlank] ++ inl ++ tt))).
+Proof. exact MapScriptsParse.tree_lines. Qed.
+Print Assumptions tree_lines.
+
+Theorem mapscripts_tokens_to_lines :
+  forall (autovars : list (text * autovar)) (switches : list (text * text)) (env_errors : bool)
+    (parse_format : toks -> res (token * text * text * toks)),
+  (forall (ts : toks) (tk : token) (v sty : text) (ts' : toks),
+   parse_format ts = Ok (tk, v, sty, ts') -> forall a : toks, advs a ts -> advs a ts') ->
+  forall (consts : list (text * text)) (tl : list text) (opt : bool) (f : nat) (ts : toks) (name : text) (g : bool) 
+    (plain : list mapscript) (tables : list tablems) (imp : impdata) (ts' : toks),
+  eof_ended ts ->
+  parse_mapscripts autovars switches env_errors parse_format consts f ts = Ok (TMapScripts name g plain tables, imp, ts') ->
+  exists (es : list entry) (rb : token) (rest : toks),
+    mapscripts_src consts (body_parsed autovars switches env_errors parse_format consts) ts g name es rb rest /\
+    ts' = rb :: rest /\
+    emit_mapscripts None tl opt name g plain tables =
+    bind_i (emit_scripts None tl opt (plain_scripts name es))
+      (fun inl : list instr =>
+       bind_i (table_blocks consts tl opt name es)
+         (fun tt : list instr =>
+          Emitter.Ok ([ILabel name g] ++ plain_lines name es ++ table_lines name es ++ [ILine (tab ++ t ".byte 0"); IBlank] ++ inl ++ tt))).
+Proof. exact MapScriptsParse.mapscripts_tokens_to_lines. Qed.
+Print Assumptions mapscripts_tokens_to_lines.
+
+Theorem mapscripts_source_to_lines :
+  forall (hl hd hs : N -> bool) (autovars : list (text * autovar)) (switches : list (text * text)) (ee : bool) (fc : fontcfg) 
+    (cli_font : text) (cli_maxlen : Z) (consts : list (text * text)) (tl : list text) (opt : bool) (f : nat) (s name : text) 
+    (g : bool) (plain : list mapscript) (tables : list tablems) (imp : impdata) (ts' : toks),
+  parse_mapscripts autovars switches ee (parse_format fc cli_font cli_maxlen ee) consts f (lex hl hd hs s) =
+  Ok (TMapScripts name g plain tables, imp, ts') ->
+  exists (es : list entry) (rb : token) (rest : toks),
+    mapscripts_src consts (body_parsed autovars switches ee (parse_format fc cli_font cli_maxlen ee) consts) (lex hl hd hs s) g name es rb rest /\
+    ts' = rb :: rest /\
+    emit_mapscripts None tl opt name g plain tables =
+    bind_i (emit_scripts None tl opt (plain_scripts name es))
+      (fun inl : list instr =>
+       bind_i (table_blocks consts tl opt name es)
+         (fun tt : list instr =>
+          Emitter.Ok ([ILabel name g] ++ plain_lines name es ++ table_lines name es ++ [ILine (tab ++ t ".byte 0"); IBlank] ++ inl ++ tt))).
+Proof. exact MapScriptsParse.mapscripts_source_to_lines. Qed.
+Print Assumptions mapscripts_source_to_lines.
+
+Theorem statement_to_lines :
+  forall (autovars : list (text * autovar)) (switches : list (text * text)) (env_errors : bool)
+    (parse_format : toks -> res (token * text * text * toks)) (consts : list (text * text)) (F0 : nat) (tl : list text) 
+    (opt : bool) (ts : toks) (g : bool) (name : text) (es : list entry) (rb : token) (rest : toks) (f : nat),
+  mapscripts_src consts (body_parses autovars switches env_errors parse_format consts F0) ts g name es rb rest ->
+  F0 + Datatypes.length ts <= f ->
+  exists (plain : list mapscript) (tables : list tablems) (imp : impdata),
+    parse_mapscripts autovars switches env_errors parse_format consts f ts = Ok (TMapScripts name g plain tables, imp, rb :: rest) /\
+    emit_mapscripts None tl opt name g plain tables =
+    bind_i (emit_scripts None tl opt (plain_scripts name es))
+      (fun inl : list instr =>
+       bind_i (table_blocks consts tl opt name es)
+         (fun tt : list instr =>
+          Emitter.Ok ([ILabel name g] ++ plain_lines name es ++ table_lines name es ++ [ILine (tab ++ t ".byte 0"); IBlank] ++ inl ++ tt))).
+Proof. exact MapScriptsParse.statement_to_lines. Qed.
+Print Assumptions statement_to_lines.
+
+Theorem parse_tops_mapscripts_real :
+  forall (autovars : list (text * autovar)) (switches : list (text * text)) (ee : bool) (fc : fontcfg) (cli_font : text) 
+    (cli_maxlen : Z) (f : nat) (st : pstate) (ts : toks) (st' : pstate),
+  eof_ended ts ->
+  ttype (cur ts) = MAPSCRIPTS ->
+  parse_tops autovars switches ee (parse_format fc cli_font cli_maxlen ee) (S f) st ts = Ok st' ->
+  exists (g : bool) (name : text) (es : list entry) (rb : token) (rest : toks) (imp : impdata) (h' : hst) (ps : list patch),
+    mapscripts_src (pconsts st) (body_parsed autovars switches ee (parse_format fc cli_font cli_maxlen ee) (pconsts st)) ts g name es rb rest /\
+    imp_eq imp (entries_imp es) /\
+    add_implicit imp (ph st) = (h', ps) /\
+    parse_tops autovars switches ee (parse_format fc cli_font cli_maxlen ee) f
+      {|
+        pconsts := pconsts st;
+        ph := h';
+        ptops :=
+          ptops st ++ [TMapScripts name g (plain_of name (map (patch_entry ps) es)) (tables_of (pconsts st) name (map (patch_entry ps) es))];
+        ptexts := ptexts st
+      |} rest = Ok st'.
+Proof. exact MapScriptsParse.parse_tops_mapscripts_real. Qed.
+Print Assumptions parse_tops_mapscripts_real.
+
+Theorem rows_ast_nth :
+  forall (consts : list (text * text)) (name ty : text) (rows : list row) (k : nat),
+  nth_error (rows_ast consts name ty 0 rows) k = option_map (row_ast consts name ty k) (nth_error rows k).
+Proof. exact MapScriptsParse.rows_ast_nth. Qed.
+Print Assumptions rows_ast_nth.
+
+Theorem rows_ast_length :
+  forall (consts : list (text * text)) (name ty : text) (i : nat) (rows : list row),
+  Datatypes.length (rows_ast consts name ty i rows) = Datatypes.length rows.
+Proof. exact MapScriptsParse.rows_ast_length. Qed.
+Print Assumptions rows_ast_length.
+
+Theorem entry_count :
+  forall (consts : list (text * text)) (name : text) (es : list entry),
+  Datatypes.length (plain_of name es) + Datatypes.length (tables_of consts name es) = Datatypes.length es.
+Proof. exact MapScriptsParse.entry_count. Qed.
+Print Assumptions entry_count.
+
+Theorem inline_row_name :
+  forall (consts : list (text * text)) (name ty : text) (rows : list row) (k : nat) (c v : list token) (b : list stmt) (imp : impdata),
+  nth_error rows k = Some (RInline c v b imp) ->
+  exists e : tableentry, nth_error (rows_ast consts name ty 0 rows) k = Some e /\ teName e = row_name name ty k /\ teScript e = Some b.
+Proof. exact MapScriptsParse.inline_row_name. Qed.
+Print Assumptions inline_row_name.
+
+Theorem label_row_name :
+  forall (consts : list (text * text)) (name ty : text) (rows : list row) (k : nat) (c v : list token) (lbl : token),
+  nth_error rows k = Some (RLabel c v lbl) ->
+  exists e : tableentry, nth_error (rows_ast consts name ty 0 rows) k = Some e /\ teName e = tlit lbl /\ teScript e = None.
+Proof. exact MapScriptsParse.label_row_name. Qed.
+Print Assumptions label_row_name.
+
+Theorem row_names_distinct :
+  forall (name ty : text) (i j : nat),
+  (N.of_nat i < 10 ^ 40)%N -> (N.of_nat j < 10 ^ 40)%N -> i <> j -> row_name name ty i <> row_name name ty j.
+Proof. exact MapScriptsParse.row_names_distinct. Qed.
+Print Assumptions row_names_distinct.
+
+Theorem table_inline_names_nodup :
+  forall (consts : list (text * text)) (name ty : text) (rows : list row),
+  (N.of_nat (Datatypes.length rows) <= 10 ^ 40)%N -> NoDup (map teName (filter has_script (rows_ast consts name ty 0 rows))).
+Proof. exact MapScriptsParse.table_inline_names_nodup. Qed.
+Print Assumptions table_inline_names_nodup.
+
+Theorem plain_names_distinct :
+  forall (name : text) (ty1 ty2 : token), tlit ty1 <> tlit ty2 -> plain_name name ty1 <> plain_name name ty2.
+Proof. exact MapScriptsParse.plain_names_distinct. Qed.
+Print Assumptions plain_names_distinct.
+
